@@ -261,9 +261,18 @@ func c15Incremental(x *mc.Exec) {
 // (type "x"+name "x_q" against type "x_x"+name "q"): a lookup keyed by a joined
 // string confuses them.
 func c15Names(x *mc.Exec) {
-	sep := []string{"_", ".", "-", "/", " ", ""}[x.Choose(6, "separator")]
+	si := x.Choose(7, "separator")
+	sep := []string{"_", ".", "-", "/", " ", "", ""}[si]
 	types := []string{"a", "x", "x" + sep + "x"}
 	names := []string{"p", "q", "x" + sep + "q"}
+	targets := types
+	if si == 6 {
+		// letter case: relationship and type names that differ from others by case only, and
+		// targets that do not exist although a type of the same letters does
+		types = []string{"a", "x", "X"}
+		names = []string{"p", "q", "P"}
+		targets = []string{"a", "x", "X", "A"}
+	}
 	s := &j.Schema{}
 	type placed struct {
 		owner string
@@ -273,13 +282,13 @@ func c15Names(x *mc.Exec) {
 	desc := ""
 	for _, tn := range types {
 		t := j.Type{Name: tn, Attrs: map[string]j.Attr{}, Rels: map[string]j.Rel{}}
-		c := x.Choose(1+len(names)*len(types)*(1+len(names)), "relationship of "+tn)
+		c := x.Choose(1+len(names)*len(targets)*(1+len(names)), "relationship of "+tn)
 		if c > 0 {
 			c--
 			from := names[c%len(names)]
 			c /= len(names)
-			to := types[c%len(types)]
-			c /= len(types)
+			to := targets[c%len(targets)]
+			c /= len(targets)
 			inv := ""
 			if c > 0 {
 				inv = names[c-1]
@@ -295,7 +304,15 @@ func c15Names(x *mc.Exec) {
 	}
 	x.Render(desc)
 	offenders := 0
+	exists := map[string]bool{}
+	for _, tn := range types {
+		exists[tn] = true
+	}
 	for _, p := range all {
+		if !exists[p.rel.ToType] {
+			offenders++
+			continue
+		}
 		if p.rel.ToName == "" {
 			continue
 		}
@@ -422,7 +439,7 @@ func c15Large(x *mc.Exec) {
 func init() {
 	Register(&Prop{
 		ID: "C15",
-		Rule: "Engine A: ALL schemas over types {a,b} (type c always missing; thorough adds a third type d, then with slots a.x, a.y, b.x, d.x): per type two relationship slots x,y, each absent or target{a,b,c} x inverse{\"\",x,y} x FromType{owner,other,empty} (28 options per slot, 28^4 + smaller type sets), both type orders, relationships stored under their names or under unrelated map keys; the iteration order of every map loop instance inside Check is a deviation-bounded choice (bound 1). plus every history of 4 (thorough 5) schema edits (incl. edits that break and repair coherence) with Check() called after every subset of them, the final verdict compared with an equal schema built in one go. plus ALL schemas of three types a, x, x<sep>x each with at most one relationship named p, q or x<sep>q towards any of them with inverse name in {none, p, q, x<sep>q}, for 6 separators (names whose joined strings coincide). plus schemas of 2..40 types (ring of two-way pairs, one-way chain, star with nil- / empty-Rels leaves) x {consistent, missing target, unreciprocated inverse} at the first, a middle and the last type. Oracle: independent offender count; Check()==[] iff no offender, len(Check()) >= offenders, no panic, deep snapshot of the schema unchanged. Non-trivial = schema with some but not all relationships offending",
+		Rule: "Engine A: ALL schemas over types {a,b} (type c always missing; thorough adds a third type d, then with slots a.x, a.y, b.x, d.x): per type two relationship slots x,y, each absent or target{a,b,c} x inverse{\"\",x,y} x FromType{owner,other,empty} (28 options per slot, 28^4 + smaller type sets), both type orders, relationships stored under their names or under unrelated map keys; the iteration order of every map loop instance inside Check is a deviation-bounded choice (bound 1). plus every history of 4 (thorough 5) schema edits (incl. edits that break and repair coherence) with Check() called after every subset of them, the final verdict compared with an equal schema built in one go. plus ALL schemas of three types a, x, x<sep>x each with at most one relationship named p, q or x<sep>q towards any of them with inverse name in {none, p, q, x<sep>q}, for 6 separators (names whose joined strings coincide) and for names / targets that differ by letter case only. plus schemas of 2..40 types (ring of two-way pairs, one-way chain, star with nil- / empty-Rels leaves) x {consistent, missing target, unreciprocated inverse} at the first, a middle and the last type. Oracle: independent offender count; Check()==[] iff no offender, len(Check()) >= offenders, no panic, deep snapshot of the schema unchanged. Non-trivial = schema with some but not all relationships offending",
 		Assumptions: []string{"'names it back' is the pair-of-names test of the statement; whether the inverse also points at the owning type is not demanded (weaker reading)"},
 		Harnesses: []Harness{{Name: "C15/all-schemas", Body: c15Body, ShardDepth: 3, Dev: func() int { return 1 }},
 			{Name: "C15/incremental", Body: c15Incremental}, {Name: "C15/names", Body: c15Names}, {Name: "C15/large", Body: c15Large}},
